@@ -10,7 +10,8 @@ def build():
     ub = UnitBuild(NAME)
     src = Source("fclones/src/dedupe.rs")
     fn = src.item("fn partition(")
-    sl = src.stmts(fn, "let n = max(1, config.rf_over.unwrap_or(1));", "assert!(to_retain.len() >= n || to_drop.is_empty());")
+    # structural anchor: everything between the keep/drop split (`.partition(..)`) and the construction of the result
+    sl = src.after_call_until(fn, ".partition", "Ok(PartitionedFileGroup {")
     ub.spec(open(os.path.join(HERE, "partition_tail.prelude.rs")).read())
     p = ub.piece(Piece(sl, rewrite_asserts=True))
     p.after("assert(verif_assert_0);", " // @ob C02.partition_tail.source_assertion_enough_retained_or_nothing_dropped")
